@@ -5,7 +5,7 @@ COMPONENTS_SIM = {
               'guest code (scripted by the plan)', 'fault box (allocator / create / grant / lookup failures)'],
 }
 
-WORLDS = ['apptoken', 'mem', 'callback', 'invoke', 'toctou', 'bulk', 'transition', 'threads']
+WORLDS = ['apptoken', 'abi', 'mem', 'callback', 'invoke', 'toctou', 'bulk', 'transition', 'threads']
 
 PROPS = {
     'C15': dict(
@@ -22,7 +22,7 @@ PROPS = {
                        'lookup_of_released_token', 'owner_moved', 'owner_move_constructed_from_inert_source', 'null_application_pointer_registered'],
         components=COMPONENTS_SIM,
         assumptions=['uint8_t instantiation of app_pointer_map is representative of the uint32_t one apart from the limit (same template code)',
-                     'limit 255 for uint8_t is excluded: the scan loop cannot terminate there by construction of the type, not by the algorithm',
+                     'uint8_t tokens with limit 255 (the largest value of the type) are included since repair 17 made the search terminate there',
                      'released-token sweep after each step checks the 6 most recently released tokens, not all of them'],
     ),
 
@@ -111,7 +111,16 @@ PROPS['C04']['rule'] = MEM_RULE + ('; in the invoke world (see C11) function poi
                                    'pointer, nullptr literal in; arbitrary table index or 0 out - against a backend that answers garbage when asked to translate null')
 PROPS['C04']['expect_probes'] = PROPS['C04']['expect_probes'] + ['null_function_pointer_passed_to_sandbox', 'null_function_pointer_returned_by_sandbox',
                                                                  'pointers_of_two_sandboxes_compared', 'equal_representations_in_two_sandboxes_compared', 'struct_with_inner_struct_accessed']
-PROPS['C12']['worlds'] = PROPS['C12']['worlds'] + [INV_WORLD]
+# a guest whose int is wider than the application's (every other world's guest ABI is narrower or equal): results and
+# callback arguments that no application int can hold must not be truncated
+ABI_WORLD = dict(world='abi', variants=['plain', 'wide'], quick=dict(count=60000, time_limit=30, variant_share={'plain': 0.25, 'wide': 0.75}),
+                 thorough=dict(count=3000000, time_limit=300, variant_share={'plain': 0.25, 'wide': 0.75}))
+PROPS['C11']['worlds'] = PROPS['C11']['worlds'] + [ABI_WORLD]
+PROPS['C11']['rule'] = PROPS['C11']['rule'] + ('; world abi: the stub built with a 64-bit guest int (and as a control with the ordinary 32-bit one): int f(int, unsigned) whose guest-side result is '
+                                               'any 64-bit value - delivered exactly when an int can hold it, otherwise the invocation aborts')
+PROPS['C11']['expect_probes'] = PROPS['C11']['expect_probes'] + ['F9_result_not_representable_in_application_type']
+PROPS['C12']['worlds'] = PROPS['C12']['worlds'] + [INV_WORLD, ABI_WORLD]
+PROPS['C12']['expect_probes'] = PROPS['C12']['expect_probes'] + ['F9_callback_argument_not_representable_in_application_type', 'callback_with_struct_parameter', 'host_abi_callback_with_non_long_result']
 PROPS['C12']['rule'] = PROPS['C12']['rule'] + ('; in the invoke world (see C11) one callback takes char, bool, long long, float, enum, unsigned short, a function pointer and a long '
                                                'and returns unsigned long: the guest forwards what it was given, substitutes a function index (or 0) and a long of its own, '
                                                'and the result is either delivered converted or, when it does not fit the guest type, the call aborts before the guest sees anything')
